@@ -133,7 +133,7 @@ pub fn check(ctx: &Ctx) -> i32 {
     let mut ev = Evidence::default();
     ev.rule = "generated Fun programs (all constructs, effects anywhere, name reuse, compiler-style identifiers) that the checker accepts; every stage runs under catch_unwind (only the two documented capacity assertions are tolerated); independent checkers: Core type/scope checker on compile_prog's output, on the uniquified and on the focused program; AxCut checker on shrink_prog's output (scoping, kinds, types, clauses one per xtor in declaration order, call/let/invoke arguments against signatures); ordered-linear checker on the linearized program; all three code generators (RISC-V only for print-free programs). Non-trivial: >= 2 monomorphic type instances and >= 1 lifted/shared label; distinct by hash of the source.".into();
     ev.assumptions = vec!["the checkers implement exactly the rules listed in property C12".into()];
-    let n = ctx.tier.pick(3000, 50000);
+    let n = ctx.tier.pick(3000, 200000);
     let run = |b: &[u8]| {
         let c = decode(ctx, b);
         run_case(ctx, &c.prog, &c.tuples)
